@@ -154,13 +154,15 @@ PROPS["C09"] = {
 }
 
 C01_INJECT = ST_ALL + [("emulator-2a-lib/src/machine/raw/mod.rs", "c01_isa.rs", "verif_isa"),
-                       ("emulator-2a-lib/src/machine/raw/mod.rs", "c01_triples.rs", "verif_c01")]
+                       ("emulator-2a-lib/src/machine/raw/mod.rs", "c01_triples.rs", "verif_c01"),
+                       ("emulator-2a-lib/src/machine/raw/mod.rs", "c01_loops.rs", "verif_c01l")]
 
 C01_QUICK_CORE = ["c01_nop", "c01_clr", "c01_ei", "c01_push", "c01_pop", "c01_popf", "c01_jr_b0_taken", "c01_jr_b1_not", "c01_call", "c01_reti",
                   "c01_neg", "c01_asr", "c01_rrc", "c01_inc", "c01_dec", "c01_add_s1", "c01_adc_s2", "c01_sub_s0", "c01_and_s3", "c01_or_s1", "c01_xor_s2",
                   "c01_stop", "c01_fetch_words_identical", "c01_src_reg", "c01_src_dinc", "c01_mov_ind", "c01_mov_dinc", "c01_cmp_inc", "c01_bitt_reg",
                   "c01_ldsp", "c01_ldfr", "c01_bits_ind", "c01_bitc_inc", "c01_reset_reaches_boundary", "c01_canary",
-                  "c01_mul_entry", "c01_mul_iter", "c01_mul_exit", "c01_div_entry", "c01_div_iter", "c01_div_exit"]
+                  "c01_mul_entry", "c01_mul_pass_1_more", "c01_mul_pass_0_more", "c01_mul_pass_1_last", "c01_mul_pass_0_last", "c01_mul_exit",
+                  "c01_div_entry", "c01_div_by_zero", "c01_div_pass_more", "c01_div_pass_last", "c01_div_exit", "c01_loops_canary"]
 
 
 def _select_c01(allh, tier, seed):
